@@ -33,6 +33,7 @@ DECIDED = [
     "C04.8 occupied bounce (reset, bounded sleep, continue, no traversal in the same iteration)",
     "C04.10 premise of the exclusion argument: equivalent nodes are bridged symmetrically at every creation site (all pairs in the update tool)",
     "C04.11 shared_started_workers covers the node and every bridged copy; a fresh node is not started",
+    "C04.6t re-entrancy bounded by the tries not yet spent (a worker is not admitted to a node whose last try is in flight); C04.12/12r wait budget floor and object-root factor",
 ]
 NOT_DECIDED = ["overlap when a test overruns its timeout", "completeness of bridging (C09)"]
 MIN_INSTANCES = 25
